@@ -51,8 +51,16 @@
     (`Abs.Idx.plan_correct`: the general form — a plan of per-name drop / create / replace steps; Abs/IdxDrop.lean;
     the reference engine keeps every index non-empty and within its table's columns, Proofs/SpecWF.lean.)
 
-  Missing for `Statement_partial`: the attribute lemmas (a MODIFY for exactly the columns whose type or options
-  differ), the primary key, and the lift from one table's lists to the whole reference schema.  Those parts are covered by the correspondence run and
+  * `equal_column_untouched` — **no column that is equal on both sides is dropped, re-created or modified** (schemas
+    without PRIMARY KEY declarations): if a column of a table present on both sides has the same type and the same
+    options up to order in the two reference schemas, neither `MigrationColumnUp` nor `MigrationColumnDown` of the
+    diffed record prints an ADD / DROP / MODIFY COLUMN statement about it (Proofs/Untouched: the first loop of
+    `Table.Diff` tags it "no action" because its option comparison agrees with the reference options up to order
+    — Proofs/OptsGood, CrossLoad —, the second loop keeps it, and the walks print about a column only from a record of
+    that name with an action).  (That an *index* equal on both sides gets no statement is part of `Abs.Idx.emit`.)
+
+  Missing for `Statement_partial`: the converse attribute lemma (a MODIFY carrying the new definition for exactly the
+  columns whose type or options differ), the primary key, and the lift from one table's lists to the whole schema.  Those parts are covered by the correspondence run and
   by the executable predicate `Spec.c01` evaluated on the implementation's printed migration on every check.
 -/
 import SqlizeModel.Abs.Columns
@@ -60,6 +68,7 @@ import SqlizeModel.Proofs.WalkRefine
 import SqlizeModel.Proofs.MergeRefine
 import SqlizeModel.Proofs.EndToEnd
 import SqlizeModel.Proofs.EndToEndElems
+import SqlizeModel.Proofs.Untouched
 import SqlizeModel.Impl.Api
 import SqlizeModel.Spec.Scope
 
@@ -148,6 +157,33 @@ theorem indexes_with_dropped_columns (g : Globals) (hg : g.dialect = .mysql) (hi
         ((∀ s ∈ tbN.idxs, ∀ o ∈ tbO.idxs, o.name = s.name → o ≠ s → ∃ c ∈ o.cols, c ∉ dc) →
           ∃ R, Abs.Idx.execAll (Abs.Idx.prune dc tbO.idxs) (ss.filterMap idxStmt) = some R ∧ R.Perm tbN.idxs) :=
   indexes_with_drops_end_to_end g hg hio rc old new dbO dbN ho hn heo hen d hd t tbO tbN hfo hfn hne
+
+/-- a column equal on both sides gets no column statement, in either direction (MySQL reader model, no PRIMARY KEY) -/
+theorem equal_column_untouched (g : Globals) (hg : g.dialect = .mysql) (rc : Bool)
+    (old new : List Stmt) (dbO dbN : DB) (ho : old.all Stmt.elemSafe = true) (hn : new.all Stmt.elemSafe = true)
+    (hpo : old.all Stmt.plain = true) (hpn : new.all Stmt.plain = true)
+    (heo : execAll rc [] old = some dbO) (hen : execAll rc [] new = some dbN)
+    (d : Migration) (hd : loadAndDiff g old new = .ok d)
+    (t : String) (tbO tbN : TableSpec) (hfo : dbO.find t = some tbO) (hfn : dbN.find t = some tbN)
+    (cN cO : ColSpec) (hcN : cN ∈ tbN.cols) (hcO : cO ∈ tbO.cols) (hname : cO.name = cN.name) (htyp : cO.typ = cN.typ)
+    (hopts : cO.opts.Perm cN.opts) :
+    ∃ td ∈ d.tables, td.name = t ∧ td.action = .none ∧
+      ∀ up, ∀ s ∈ (Table.walkCols g t up [] td.cols).1, stmtCol s ≠ some cN.name :=
+  Sqlize.equal_column_untouched g hg rc old new dbO dbN ho hn hpo hpn heo hen d hd t tbO tbN hfo hfn cN cO hcN hcO hname htyp hopts
+
+-- non-vacuity of `equal_column_untouched`: column `a` has its options in another order on the two sides and is left
+-- alone, while `b` (retyped) is modified and `c` is added
+def exOldU : List Stmt :=
+  [.createTable "t" 0 [{ name := "a", typ := "int(11)", opts := [{ kind := .notNull }, { kind := .default, dflt := .num "1" }] },
+                       { name := "b", typ := "varchar(64)" }] []]
+def exNewU : List Stmt :=
+  [.createTable "t" 0 [{ name := "a", typ := "int(11)", opts := [{ kind := .default, dflt := .num "1" }, { kind := .notNull }] },
+                       { name := "b", typ := "varchar(255)" }, { name := "c", typ := "text" }] []]
+example : exOldU.all Stmt.elemSafe = true ∧ exNewU.all Stmt.elemSafe = true ∧ exOldU.all Stmt.plain = true ∧
+    exNewU.all Stmt.plain = true ∧ (execAll true [] exOldU).isSome = true ∧ (execAll true [] exNewU).isSome = true := by decide
+example : ∃ d, loadAndDiff {} exOldU exNewU = .ok d ∧
+    (d.tables.map (fun t => (Table.walkCols {} t.name true [] t.cols).1.map stmtCol)) = [[some "b", some "c"]] :=
+  ⟨_, by rfl, by decide⟩
 
 -- non-vacuity of `indexes_with_dropped_columns`: column `b` is dropped; the index on `b` alone needs no DROP INDEX
 -- (suppressed), the index on (a, b) — stripped to (a) by the DROP COLUMN — is dropped, a new one is created
